@@ -260,6 +260,53 @@ def run_point(arg):
             shutil.rmtree(env["OVNI_TMPDIR"], ignore_errors=True)
 
 
+def run_huge(mode):
+    """No fault at all, but a stream larger than 2 GiB: after a normal end the final
+    directory must hold every flushed byte of a stream it marks as finished, and the
+    emulator must not report success on less.  Sizes only (no decoding of 2 GiB)."""
+    chk, drv, plain = _CTX["chk"], _CTX["drv"], _CTX["plain"]
+    wd = os.path.join(chk.scratch, "huge-%d" % os.getpid())
+    shutil.rmtree(wd, ignore_errors=True)
+    os.makedirs(wd)
+    n, size = 2100, 1048576
+    ops = ["proc 1 node0 100", "thread", "init 500", "cpu 0 0", "ev OHx now %s" % obs.i32(0, 500, 0).hex()]
+    ops += ["jumbo OB. now %d 7" % size] * n + ["ev OHe now -", "flush", "free", "end", "fini"]
+    res = {"arg": ("huge", mode, "none", 0, 0), "viol": None, "fired": False, "sig": None}
+    try:
+        r = rt.run_script(drv, "\n".join(ops) + "\n", wd, env=mode_env(mode, wd), timeout=900)
+        if r.timeout or r.rc != 0 or "RTDRV-DONE" not in r.out:
+            return res                      # the library stopping the program is C10's business
+        res["fired"] = True
+        flushed = 8 + 24 + n * (16 + size) + 12      # header, OHx, jumbos, OHe; flush markers come on top
+        final = os.path.join(wd, "trace")
+        sds = obs.find_streams(final)
+        st = []
+        for sd in sds:
+            try:
+                fin = json.load(open(os.path.join(sd, "stream.json"))).get("ovni", {}).get("finished") == 1
+            except (OSError, ValueError, AttributeError):
+                fin = False
+            try:
+                sz = os.path.getsize(os.path.join(sd, "stream.obs"))
+            except OSError:
+                sz = -1
+            st.append((fin, sz))
+            if fin and sz < flushed:
+                res["viol"] = ("finished-marker-before-data:huge:" + mode,
+                               "stream marked finished in the final directory holds %d bytes, %d were flushed "
+                               "(no fault injected; 2 GiB stream)" % (sz, flushed), {"mode": mode, "script": "huge"})
+        e = emu.emu(plain, final, timeout=600) if os.path.isdir(final) else None
+        ok = bool(e and emu.accepted(e))
+        if ok and any(sz < flushed for (_, sz) in st) and not res["viol"]:
+            res["viol"] = ("emulator-accepts-trace-lacking-flushed-events:huge:" + mode,
+                           "ovniemu reported success on a stream lacking flushed bytes", {"mode": mode, "script": "huge"})
+        res["sig"] = tuple(sorted([("huge", "finished" if f else "unfinished", "complete" if z >= flushed else "lacking")
+                                   for (f, z) in st] + [("emu", "ok" if ok else "fail")]))
+        return res
+    finally:
+        shutil.rmtree(wd, ignore_errors=True)
+
+
 class NoFaultViolation(Exception):
     """The run without any injected fault already fails the oracle."""
 
@@ -391,11 +438,21 @@ def main(argv):
         per_mode[res["arg"][1]] = per_mode.get(res["arg"][1], 0) + 1
         if res["viol"]:
             chk.report(res["viol"][0], res["viol"][1], res["viol"][2])
+    # a stream larger than 2 GiB, no fault: relocated (quick) and written directly as well (thorough)
+    for res in core.pmap(run_huge, ["tmp-tmpfs"] if quick else ["tmp-tmpfs", "direct"], jobs=2):
+        if not res["fired"]:
+            nofire += 1
+            continue
+        fired += 1
+        states.add((res["arg"][1], res["sig"]))
+        per_mode[res["arg"][1]] = per_mode.get(res["arg"][1], 0) + 1
+        if res["viol"]:
+            chk.report(res["viol"][0], res["viol"][1], res["viol"][2])
     chk.inconclusive += nofire
     cov = {"evaluations": fired, "distinct_nontrivial": len(states), "aligned_stream_sizes": aligned,
            "rule": "kill points = every (file system call, occurrence) of the strace baseline of each deterministic "
                    "single-thread script after the first runtime mkdir, in direct mode and with OVNI_TMPDIR on tmpfs and on "
-                   "ext4 (exhaustive per script and mode, except that long runs of identical 1 KiB copy reads/writes are sampled), and one failed write/close/open/read per such point; plus sampled points of a 3-thread script; a point counts when "
+                   "ext4 (exhaustive per script and mode, except that long runs of identical 1 KiB copy reads/writes are sampled), and one failed write/close/open/read per such point; one run without any fault writing a stream larger than 2 GiB; plus sampled points of a 3-thread script; a point counts when "
                    "strace reports the SIGKILL. distinct_nontrivial = distinct (mode, final-directory state) signatures "
                    "observed after the kill (per stream: metadata present/torn, finished or not, data none/lacking/complete; "
                    "emulator verdict)",
